@@ -223,13 +223,19 @@ func NewCMAC(b cipher.Block, size int) *cmac {
 	blockSize := b.BlockSize()
 	k1 := make([]byte, blockSize)
 	k2 := make([]byte, blockSize)
+	// R_b of NIST SP 800-38B 5.3: x^128+x^7+x^2+x+1 for 128-bit blocks,
+	// x^64+x^4+x^3+x+1 for 64-bit blocks.
+	var rb byte = 0b10000111
+	if blockSize == 8 {
+		rb = 0b00011011
+	}
 	b.Encrypt(k1, k1)
 	msb := shiftLeft(k1)
-	k1[len(k1)-1] ^= msb * 0b10000111
+	k1[len(k1)-1] ^= msb * rb
 
 	copy(k2, k1)
 	msb = shiftLeft(k2)
-	k2[len(k2)-1] ^= msb * 0b10000111
+	k2[len(k2)-1] ^= msb * rb
 
 	d := &cmac{b: b, k1: k1, k2: k2, size: size}
 	d.blockSize = blockSize
